@@ -73,6 +73,11 @@ def main():
     chunk = 12
     for i in range(0, len(keys), chunk):
         units.append(('resolve', [k[0] for k in keys[i:i + chunk]]))
+    # the same for the copy of Object::find that the `sync` feature compiles (a sample of the keys in the quick tier)
+    units.append(('total-sync', 5 if quick else 7))
+    skeys = [k for k in keys if k[1] != 'wf'] + [k for k in keys if k[1] == 'wf'][::(7 if quick else 1)]
+    for i in range(0, len(skeys), chunk):
+        units.append(('resolve-sync', [k[0] for k in skeys[i:i + chunk]]))
     for fam in ('plain', 'list', 'two', 'deep', 'index'):
         units.append(('nested', fam))
     units.append(('overrides',))
@@ -173,6 +178,10 @@ def ref_resolve(doc, key):
 def run_unit(ck, unit):
     kind = unit[0]
     prog = ck.program()
+    if kind.endswith('-sync'):
+        # the `sync` feature compiles a second, separately written copy of the Object trait and its impls
+        kind = kind[:-len('-sync')]
+        prog = ck.program(('sync',))
     quick = ck.tier == 'quick'
     if kind in ('total', 'resolve'):
         uni = engine.Universe()
